@@ -111,3 +111,13 @@ Definition mismatches_run (cases : list (N * list pevent * list N)) : list nat :
   let fix go (i : nat) (cs : list (N * list pevent * list N)) : list nat :=
     match cs with [] => [] | (ttl, evs, want) :: rest => if nl_eqb' (run_obs ttl evs) want then go (S i) rest else i :: go (S i) rest end in
   go 0%nat cases.
+
+(* ---------- attaching to a primary's stream (store.go monitorLeaseAsReplica 1396-1406) ---------- *)
+(* cluster ids as options: None = not set.  Returns the id the node has afterwards and whether it follows. *)
+Definition attach (local stream : option N) : option N * bool :=
+  let local' := match local, stream with None, Some c => Some c | _, _ => local end in
+  (local', match local', stream with
+           | Some a, Some b => a =? b
+           | None, None => true
+           | _, _ => false
+           end).
